@@ -126,6 +126,10 @@ func (pf *RangeProofAlice) Verify(ec elliptic.Curve, pk *paillier.PublicKey, NTi
 	if !common.IsInInterval(pf.S, pk.N) {
 		return false
 	}
+	if !common.IsInInterval(c, pk.NSquare()) || new(big.Int).GCD(nil, nil, c, pk.NSquare()).Cmp(one) != 0 {
+		// c^-e below needs c to be a unit modulo N^2
+		return false
+	}
 	if new(big.Int).GCD(nil, nil, pf.Z, NTilde).Cmp(one) != 0 {
 		return false
 	}
